@@ -14,7 +14,14 @@ from .model import norm_src
 
 VERIF = os.path.dirname(os.path.dirname(os.path.abspath(__file__)))
 OK, VIOLATION, UNRESOLVED, INFO = "OK", "VIOLATION", "UNRESOLVED", "INFO"
-EDIT_GATE = 6  # statements (added + removed) beyond which a function counts as restructured; see Collector.add
+# Rules that look for a bad construct wherever it occurs (a recursion cycle, a value kept on self, a recurrence along the
+# row order, a cache key that does not determine the value, state kept by a transform, `a[idx] += x` with repeated
+# indices, a narrowing cast, a relative tolerance on positions, a binary search in an unsorted column, an ignored option, a
+# suppressed exception, a numpy name that does not exist, a twice-consumed iterator): they judge new code as well as old.
+# Every other rule reads a fact off code it knows and gives no verdict in a function that was restructured.
+UNGATED = {"R-CG", "R-MEMO", "R-ORDER", "R-CACHEKEY", "R-STATE", "R-ACCUM", "R-NARROW", "R-RTOL", "R-SORTED", "R-OPTION", "R-EXC",
+           "R-API", "R-ITER"}
+EDIT_GATE = 8  # statements (added + removed) beyond which a function counts as restructured; see Collector.add
 
 
 @dataclass
@@ -78,7 +85,7 @@ class Collector:
         if verdict == VIOLATION and rule in self.shape_rules and not definite:
             verdict = UNRESOLVED
             detail = "code shape outside the recognised idioms (not a verdict): " + (detail or "")
-        if verdict == VIOLATION and rule in self.shape_rules:
+        if verdict == VIOLATION and rule not in UNGATED:
             # A rule that reads a fact off the shape of the code is only trusted where the function still has the shape the
             # rule was written on: a function that was restructured (many statements differ from the reference's, or the
             # function is new) is another way of writing things, and the rule gives no verdict there.  Rules that look for
@@ -90,7 +97,7 @@ class Collector:
             elif es is not None and es[0] + es[1] > EDIT_GATE:
                 verdict = UNRESOLVED
                 detail = (f"the function was restructured (+{es[0]}/-{es[1]} statements against the reference): "
-                          f"a shape rule gives no verdict there: ") + (detail or "")
+                          f"the rule gives no verdict there: ") + (detail or "")
         inst = Instance(rule, construct, loc, what, verdict, detail, stmt or "", facts or {},
                         nontrivial)
         self.instances.append(inst)
